@@ -47,7 +47,12 @@ service Processor { i32 Process(1: i32 processor) }
 	sub := `namespace go sub.base
 struct Other { 1: i32 x = 5, 2: optional double d = 1.5, 3: optional binary bin = "ab", 4: bool flag = true, 5: list<string> ls = ["a"], 6: optional string os = "dflt" }
 `
+	talias := `namespace go talias
+typedef i32 T
+struct S { 1: T f, 2: optional T g, 3: list<T> l, 4: map<T, T> m }
+`
 	return []Prog{
+		{Name: "corpus-typedef-of-base", Files: map[string]string{"t.thrift": talias}, Main: "t.thrift"},
 		{Name: "corpus-naming", Files: map[string]string{"main.thrift": main, "base.thrift": base, "sub/base.thrift": sub}, Main: "main.thrift"},
 	}
 }
